@@ -173,7 +173,7 @@ theorem mergeGo_keeps_unannounced (E : Env) (names : List Bytes) (hs ts hs' ts' 
           | error e => rw [ha] at h; cases h
           | ok hs1 => rw [ha] at h; simp only [] at h; rw [ih hs1 ts1 h hk', hts1]
 
-/-- T1: the forbidden names of the source are exactly the three framing fields, in title case -/
+/-- T1: the forbidden names of the source are in title case, and the three framing fields are among them (since the F68 repair also Host) -/
 theorem forbidden_table :
     Gen.trailerForbidden.all (fun n => n == Headers.title n) = true
     ∧ [sCL, sTE, sTrailer].all (fun n => Gen.trailerForbidden.contains n) = true := by
